@@ -3,6 +3,7 @@ META = {
  "C03": dict(level="proof", explanation="STREAM-REFINE contracts on the real stream.py modules: ghost token queue, head/cap/idle postconditions, bounded presentation, per parameterisation, all inputs/schedules, unbounded time by induction"),
  "C15": dict(level="proof", explanation="one-step postconditions over all trigger and CSR-write valuations on the real EventManager/EventSource*/SharedIRQ behind a real CSRBank"),
  "C11": dict(level="proof", explanation="ghost wait counters against the real WaitTimer/Timeout/AXI(Lite)Timeout: forced termination exactly at expiry, transparency before, recovery after; fault point and schedule universally quantified"),
+ "C18": dict(level="proof", explanation="combinational postconditions of encoder+decoder with a symbolic error vector, all data words, all single and double flip positions, per data width"),
  "C04": dict(level="proof", explanation="hold-until-ready two-cycle postcondition and bounded-response (progress) obligations from every invariant state of the real stream/packet modules"),
 }
 
@@ -25,5 +26,7 @@ def _hw(design_ref, text, extra="", technique="contract-based deductive verifica
 CLAIMS["C15"] = _hw("DESIGN.md §3 C15", "irq == OR(pending&enable); set / keep / clear / same-cycle race / isolation / level / status clauses are one-step postconditions proved over all trigger and CSR-write valuations for every source mix of the grid, behind a real CSRBank; SharedIRQ == OR.")
 CLAIMS["C11"] = _hw("DESIGN.md §3 C11", "Ghost wait counters against the real WaitTimer, wishbone.Timeout (alone and inside InterconnectShared with arbitrary silent slaves / unmapped addresses), AXILiteTimeout, AXITimeout and the SoC error counter: termination with the error indication exactly at expiry, transparency before expiry, reload after; fault point and schedule universally quantified.",
                     "AXI(-Lite) time-outs proved for single-outstanding masters; listed known findings: accepted-then-silent slaves, crossbars ignoring timeout_cycles.")
+CLAIMS["C18"] = _hw("DESIGN.md §3 C18", "For every data width of the grid the real encoder and decoder are composed with a symbolic error vector; no-error, single-flip (symbolic position, parity bit included), double-flip (two symbolic positions) and checking-disabled obligations are discharged for all data words by SMT; geometry functions checked exhaustively over k=1..128.",
+                    technique="contract-based deductive verification: combinational postconditions on the real FHDL for all data words and symbolic flip positions, SMT portfolio (z3 4.8.12 / z3 5.1 / cvc5)")
 _NYB = "check not built yet in this session (see DESIGN.md build order); will be claimed when its contracts are committed"
 NOT_APPLICABLE = {p: _NYB for p in ["C%02d" % i for i in range(1, 21)]}
